@@ -23,6 +23,7 @@ import (
 func init() {
 	drivers["kvwide"] = driveKvWide
 	drivers["kvreaders"] = driveKvReaders
+	drivers["kvfar"] = driveKvFar
 }
 
 func driveKvWide(opt *Options) error {
@@ -33,7 +34,17 @@ func driveKvWide(opt *Options) error {
 	defer tw.Close()
 	rnd := rand.New(rand.NewSource(opt.Seed))
 	ctx := context.Background()
-	for _, n := range []int{3, 63, 64, 65, 128, 129, 200, 1000} {
+	// {number of records in the one PutMany, index of the first record that carries an expiration (-1: none does)}
+	shapes := [][2]int{{3, -1}, {63, -1}, {64, 60}, {65, -1}, {128, 0}, {129, -1}, {200, 199}, {1000, -1}, {610, 505}, {1100, 1001},
+		{1000, 999}, {300 + rnd.Intn(1500), -2}, {300 + rnd.Intn(1500), -2}}
+	for _, sh := range shapes {
+		n, expFrom := sh[0], sh[1]
+		if expFrom == -2 {
+			expFrom = rnd.Intn(n)
+		}
+		if expFrom < 0 {
+			expFrom = n
+		}
 		var st kvs.Storage
 		if opt.Variant == "redis" {
 			be, err := newRedisBackend()
@@ -49,6 +60,11 @@ func driveKvWide(opt *Options) error {
 		recs := make([]kvs.Record, n)
 		for i := range recs {
 			recs[i] = kvs.Record{Key: key(i), Value: []byte(fmt.Sprint(i))}
+			if i >= expFrom && (i == expFrom || i%3 != 0) {
+				// an expiration that lies weeks ahead: the record is there for the whole run
+				t := time.Now().Add(time.Duration(30+i%20) * 24 * time.Hour)
+				recs[i].ExpiresAt = &t
+			}
 		}
 		if err := st.PutMany(ctx, recs); err != nil {
 			return err
@@ -68,7 +84,7 @@ func driveKvWide(opt *Options) error {
 				keys[j] = key(i)
 			}
 			got, err := st.GetMany(ctx, keys...)
-			ev := map[string]any{"op": "WideGet", "n": len(keys), "err": errClass(err), "len": len(got)}
+			ev := map[string]any{"op": "WideGet", "n": len(keys), "err": errClass(err), "len": len(got), "batch": n, "exp_from": expFrom}
 			slots := make([][]int, 0, len(keys))
 			for j, i := range order {
 				s := []int{b2i(present[i]), 0, i, -1}
@@ -225,6 +241,143 @@ func driveKvFresh(tw *TraceWriter) error {
 			mr.Close()
 		}
 		tw.Emit(map[string]any{"op": "Fresh", "backend": backend, "n": n, "dups": dups, "errs": errs})
+	}
+	return nil
+}
+
+// kvfar (C06, Redis backend, virtual clock in DAYS): records whose expiration lies days, weeks, years ahead, written by
+// every kind of write; the clock is moved on by whole days; after every move the store is asked what it still holds.
+// A record is there exactly as long as its expiration lies ahead - however far that is (FarTrace.tla).
+func driveKvFar(opt *Options) error {
+	tw, err := NewTraceWriter(opt.Out)
+	if err != nil {
+		return err
+	}
+	defer tw.Close()
+	rnd := rand.New(rand.NewSource(opt.Seed))
+	ctx := context.Background()
+	const day = 24 * time.Hour
+	horizons := []int{1, 2, 7, 20, 24, 25, 26, 30, 40, 49, 50, 100, 365, 400, 3650, 36500}
+	rounds := 6
+	if opt.N > 0 {
+		rounds = opt.N
+	}
+	for round := 0; round < rounds; round++ {
+		be, err := newRedisBackend()
+		if err != nil {
+			return err
+		}
+		st := be.st
+		tw.Emit(map[string]any{"op": "FarBegin"})
+		now := 0 // days moved so far
+		nkeys := 0
+		write := func() error {
+			// a handful of new records (some replacing older ones), each by a write of another kind
+			var many []kvs.Record
+			used := map[int]bool{} // one write per key and batch: the PutMany goes out last
+			for j := 0; j < 3+rnd.Intn(5); j++ {
+				k := nkeys
+				if nkeys > 0 && rnd.Intn(4) == 0 {
+					k = rnd.Intn(nkeys)
+				} else {
+					nkeys++
+				}
+				if used[k] {
+					continue
+				}
+				used[k] = true
+				key := fmt.Sprintf("far/%03d", k)
+				h := 0 // no expiration
+				var eat *time.Time
+				if rnd.Intn(6) > 0 {
+					h = now + horizons[rnd.Intn(len(horizons))]
+					// the clock of the server is moved by whole days: the expiration sits half a day away from every instant looked at
+					t := time.Now().Add(time.Duration(h-now)*day + 12*time.Hour)
+					eat = &t
+				}
+				rec := kvs.Record{Key: key, Value: []byte("v"), ExpiresAt: eat}
+				via := []string{"put", "create", "cas", "putmany"}[rnd.Intn(4)]
+				var err error
+				switch via {
+				case "put":
+					_, err = st.Put(ctx, rec)
+				case "create":
+					st.Delete(ctx, key)
+					_, err = st.Create(ctx, rec)
+				case "cas":
+					var cur kvs.Record
+					if cur, err = st.Put(ctx, kvs.Record{Key: key, Value: []byte("old")}); err == nil {
+						rec.Version = cur.Version
+						_, err = st.CasByVersion(ctx, rec)
+					}
+				case "putmany":
+					many = append(many, rec)
+				}
+				if err != nil {
+					return fmt.Errorf("kvfar: %s: %v", via, err)
+				}
+				tw.Emit(map[string]any{"op": "FarPut", "k": k, "until": h, "via": via})
+			}
+			if len(many) > 0 {
+				if err := st.PutMany(ctx, many); err != nil {
+					return fmt.Errorf("kvfar: putmany: %v", err)
+				}
+			}
+			return nil
+		}
+		look := func() error {
+			keys := make([]string, nkeys)
+			for k := range keys {
+				keys[k] = fmt.Sprintf("far/%03d", k)
+			}
+			got, err := st.GetMany(ctx, keys...)
+			if err != nil {
+				return err
+			}
+			listed, err := st.ListKeys(ctx, "far/*")
+			if err != nil {
+				return err
+			}
+			inList := map[string]bool{}
+			for listed.HasNext() {
+				k, ok := listed.Next()
+				if !ok {
+					break
+				}
+				inList[k] = true
+			}
+			listed.Close()
+			seen := []int{}
+			disagree := 0
+			for k, key := range keys {
+				_, gerr := st.Get(ctx, key)
+				a, b, c := gerr == nil, k < len(got) && got[k] != nil, inList[key]
+				if a != b || a != c {
+					disagree++
+				}
+				if a {
+					seen = append(seen, k)
+				}
+			}
+			tw.Emit(map[string]any{"op": "FarSee", "seen": seen, "disagree": disagree})
+			return nil
+		}
+		for step := 0; step < 8; step++ {
+			if err := write(); err != nil {
+				return err
+			}
+			if err := look(); err != nil {
+				return err
+			}
+			d := []int{1, 3, 5, 10, 25, 30, 60, 300, 1000, 30000}[rnd.Intn(10)]
+			be.mr.FastForward(time.Duration(d) * day)
+			now += d
+			tw.Emit(map[string]any{"op": "FarAdvance", "days": d})
+			if err := look(); err != nil {
+				return err
+			}
+		}
+		redisPool.Put(be)
 	}
 	return nil
 }
